@@ -383,6 +383,11 @@ func graphs(quick bool) []trav.GraphSpec {
 	pre := ref.Map(ref.E("a", ref.List(leaf)), ref.E("ab", ref.List(leaf, leaf)), ref.E("abc", ref.Map(ref.E("a", leaf))), ref.E("b", leaf))
 	// preorder: 0 root; a→1 (leaf 2); ab→3 (4, 5); abc→6 (7); b→8
 	out = append(out, trav.GraphSpec{Tree: pre}, trav.GraphSpec{Tree: pre, Cuts: []int{1, 3, 6}})
+	// map keys that are different strings but equal as numerals (01 | 1 | +1 | 1.0), in the order that
+	// puts the non-canonical spelling first: a start path names its entry by the string
+	twins := ref.Map(ref.E("01", ref.List(leaf)), ref.E("1", ref.List(leaf, leaf)), ref.E("+1", ref.Map(ref.E("00", leaf), ref.E("0", leaf))), ref.E("001", leaf))
+	// preorder: 0 root; 01→1 (leaf 2); 1→3 (4, 5); +1→6 (7, 8); 001→9
+	out = append(out, trav.GraphSpec{Tree: twins}, trav.GraphSpec{Tree: twins, Cuts: []int{1, 3, 6}})
 	return out
 }
 
